@@ -4,7 +4,7 @@
 (* rejection of non-linear specifications, emission for the replay leg.      *)
 EXTENDS Integers, Sequences, FiniteSets, TLC, TLCExt, Json, CSV, IOUtils, SequencesExt
 
-CONSTANTS MaxLen, Emit
+CONSTANTS MaxLen, Emit, SignRule
 C == INSTANCE Constraints
 
 A(tok, text) == [tok |-> tok, text |-> text]
